@@ -257,6 +257,48 @@ def gen_consts(repo, ns):
         if fac is None:
             raise Untranslatable(fname, f2.lineno, "periods < dt * <literal> not found")
         consts['pgaFactor_' + fname] = fac
+    # ---- im.py: calc_cav_dp constants (`asig.values / 9.81`, `(pga - 0.025) < 0`), Arias `np.pi / (2 * 9.81)`
+    isrc = open(os.path.join(repo, 'eqsig', 'im.py')).read()
+    imod = ast.parse(isrc)
+    cav = find_function(imod, 'calc_cav_dp')
+    g = gate = None
+    for n in ast.walk(cav):
+        if isinstance(n, ast.Assign) and isinstance(n.targets[0], ast.Name) and n.targets[0].id == 'acc_in_g' and \
+                isinstance(n.value, ast.BinOp) and isinstance(n.value.op, ast.Div) and isinstance(n.value.right, ast.Constant):
+            g = lit_text(ast.get_source_segment(isrc, n.value.right))
+        if isinstance(n, ast.Compare) and isinstance(n.left, ast.BinOp) and isinstance(n.left.op, ast.Sub) and \
+                isinstance(n.left.left, ast.Name) and n.left.left.id == 'pga' and isinstance(n.left.right, ast.Constant):
+            t = lit_text(ast.get_source_segment(isrc, n.left.right))
+            if gate is not None and gate != t:
+                raise Untranslatable('calc_cav_dp', n.lineno, f"two different gate literals {gate} / {t}")
+            gate = t
+    if g is None or gate is None:
+        raise Untranslatable('calc_cav_dp', cav.lineno, "acc_in_g = values / <literal> or (pga - <literal>) not found")
+    consts['cavdpG'] = g
+    consts['cavdpGate'] = gate
+    ar = find_function(imod, '_raw_calc_arias_intensity')
+    found = None
+    for n in ast.walk(ar):
+        # np.pi / (2 * 9.81)
+        if isinstance(n, ast.BinOp) and isinstance(n.op, ast.Div) and isinstance(n.left, ast.Attribute) and n.left.attr == 'pi' and \
+                isinstance(n.right, ast.BinOp) and isinstance(n.right.op, ast.Mult) and \
+                isinstance(n.right.left, ast.Constant) and isinstance(n.right.right, ast.Constant):
+            found = (lit_text(ast.get_source_segment(isrc, n.right.left)), lit_text(ast.get_source_segment(isrc, n.right.right)))
+    if found is None:
+        raise Untranslatable('_raw_calc_arias_intensity', ar.lineno, "np.pi / (<literal> * <literal>) not found")
+    consts['ariasDenA'], consts['ariasDenB'] = found
+    # ---- loader.py: the two format strings of save_values_and_dt
+    lsrc = open(os.path.join(repo, 'eqsig', 'loader.py')).read()
+    lmod = ast.parse(lsrc)
+    sv = find_function(lmod, 'save_values_and_dt')
+    fmts = [n.value for n in ast.walk(sv) if isinstance(n, ast.Constant) and isinstance(n.value, str) and '%' in n.value]
+    import re as _re
+    hdr = [f for f in fmts if _re.fullmatch(r'%i %\.(\d+)f', f)]
+    val = [f for f in fmts if _re.fullmatch(r'%\.(\d+)f', f)]
+    if len(hdr) != 1 or len(val) != 1:
+        raise Untranslatable('save_values_and_dt', sv.lineno, f"format strings {fmts}")
+    nat_consts = {'loaderDtDecimals': int(_re.fullmatch(r'%i %\.(\d+)f', hdr[0]).group(1)),
+                  'loaderValueDecimals': int(_re.fullmatch(r'%\.(\d+)f', val[0]).group(1))}
     text = ["-- GENERATED by tools/py2lean.py: literals of the Python source the hand models refer to. Do not edit.",
             "", f"namespace EqsigVerif.{ns}.Consts", ""]
     for k in sorted(consts):
@@ -264,6 +306,9 @@ def gen_consts(repo, ns):
         text.append(f"def {k}Rat : Rat := ({consts[k]} : Rat)")
         text.append(f"def {k}Float : Float := ({consts[k]} : Float)")
         text.append(f"def {k}Text : String := \"{consts[k]}\"")
+        text.append("")
+    for k in sorted(nat_consts):
+        text.append(f"def {k} : Nat := {nat_consts[k]}")
         text.append("")
     text += [f"end EqsigVerif.{ns}.Consts", ""]
     return {"Consts.lean": "\n".join(text)}
